@@ -1,25 +1,9 @@
 /- helper lemmas and proofs for C17 (DBC) -/
 import WowVerif.Model.C17Dbc
+import WowVerif.Lemmas.Bytes
 namespace Wv.Dbc
 open Wv
 set_option linter.unusedSimpArgs false
-
-theorem natLE_length (n v : Nat) : (natLE n v).length = n := by
-  induction n generalizing v with
-  | zero => rfl
-  | succ n ih => simp [natLE, ih]
-
-theorem leNat_natLE (n v : Nat) (h : v < 256 ^ n) : leNat (natLE n v) = v := by
-  induction n generalizing v with
-  | zero => simp [natLE, leNat]; simp at h; omega
-  | succ n ih =>
-    simp only [natLE, leNat]
-    have h2 : v / 256 < 256 ^ n := by
-      rw [Nat.div_lt_iff_lt_mul (by decide)]; rw [Nat.pow_succ] at h; exact h
-    rw [ih _ h2]
-    have : (UInt8.ofNat (v % 256)).toNat = v % 256 := by
-      simp [UInt8.toNat_ofNat']
-    rw [this]; omega
 
 theorem size_pow (ty : FT) : 2 ^ (8 * ty.size) = 256 ^ ty.size := by
   cases ty <;> decide
